@@ -1,6 +1,7 @@
 package main
 
 import (
+	"go/constant"
 	"go/token"
 	"go/types"
 	"strings"
@@ -258,6 +259,40 @@ func (fr *Frame) intercept(st *State, fn *ssa.Function, pkg string, args []Val, 
 					uf += "." + sanitize(string(v.T.Sort))
 				}
 				if ts != nil {
+					if fc, ok := sprintfFormatConst(instr); ok && len(fc) > 0 && fc[0] != '%' && ex.ghost == 0 {
+						// the text starts with the format's first character
+						ex.assume(st, Eq(ex.ctx.UF("str_first", SInt, ex.ctx.UF(uf, SStr, ts...)), IntLit(int64(fc[0]))))
+					}
+					if fc, ok := sprintfFormatConst(instr); ok && len(ops) == 1 && ts[1].Sort == SInt && ex.ghost == 0 && strings.Count(fc, "%") == 1 && strings.Contains(fc, "%d") {
+						// ground instance of the injectivity axiom below (ground queries leave the quantified axioms out)
+						ex.assume(st, Eq(ex.ctx.UF("uf.sprintf.inv", SInt, ts[0], ex.ctx.UF(uf, SStr, ts...)), ts[1]))
+					}
+					if len(ops) == 1 && ts[1].Sort == SInt && !ex.sprintfInj[uf] {
+						// a format with a single integer operand, used with formats whose only verb is %d (checked where
+						// the axiom is used: it is stated for the formats that are such constants): distinct numbers
+						// print differently, i.e. the operand can be read back from the text
+						if fc, ok := sprintfFormatConst(instr); ok && strings.Count(fc, "%") == 1 && strings.Contains(fc, "%d") {
+							if ex.sprintfInj == nil {
+								ex.sprintfInj = map[string]bool{}
+							}
+							key := uf + "|" + fc
+							if !ex.sprintfInj[key] {
+								ex.sprintfInj[key] = true
+								ex.trusted["fmt.Sprintf with a constant format whose only verb is %d: distinct integers give distinct texts"] = true
+								a := V("a!sp", SInt)
+								app := ex.ctx.UF(uf, SStr, ts[0], a)
+								inv := ex.ctx.UF("uf.sprintf.inv", SInt, ts[0], app)
+								ex.axioms = append(ex.axioms, &Term{Op: "forall", Sort: SBool, Bound: []Bound{{"a!sp", SInt}}, Pat: []*Term{app}, Args: []*Term{Eq(inv, a)}})
+								if fc[0] != '%' {
+									// ... and the text starts with the format's first character, so texts of formats that start
+									// differently are different
+									ex.ctx.usesStrFirst = true
+									first := ex.ctx.UF("str_first", SInt, app)
+									ex.axioms = append(ex.axioms, &Term{Op: "forall", Sort: SBool, Bound: []Bound{{"a!sp", SInt}}, Pat: []*Term{app}, Args: []*Term{Eq(first, IntLit(int64(fc[0])))}})
+								}
+							}
+						}
+					}
 					return Val{T: ex.ctx.UF(uf, SStr, ts...)}, true
 				}
 			}
@@ -942,4 +977,17 @@ func variadicBasicOperands(instr ssa.Instruction) ([]ssa.Value, bool) {
 		}
 	}
 	return ops, true
+}
+
+// sprintfFormatConst returns the format of a Sprintf call when it is a string constant.
+func sprintfFormatConst(instr ssa.Instruction) (string, bool) {
+	call, ok := instr.(ssa.CallInstruction)
+	if !ok || len(call.Common().Args) == 0 {
+		return "", false
+	}
+	c, ok := call.Common().Args[0].(*ssa.Const)
+	if !ok || c.Value == nil || c.Value.Kind() != constant.String {
+		return "", false
+	}
+	return constant.StringVal(c.Value), true
 }
